@@ -275,6 +275,8 @@ def validation_guard(exits, g, pol) -> bool:
                 return True
             if rp and not pol and rg[0] == "or" and g in rg[1]:
                 return True
+            if rp and pol and rg[0] == "or" and any(mk_not(part) == g for part in rg[1]):
+                return True  # `if not a or not b: raise` puts (a, True) and (b, True) on what follows
     return False
 
 
